@@ -184,6 +184,7 @@ ADDR = {"p2pkh": p2pkh, "p2wpkh": p2wpkh, "p2sh_p2wpkh": p2sh_p2wpkh, "p2wsh": p
 
 
 # ------------------------------------------------------------------------------ BIP39
+_HMAC_NEW = _hmac.new
 _HERE = os.path.dirname(os.path.abspath(__file__))
 WORDLIST_SHA256 = "2f5eed53a4727b4bf8880d8f3f199efc90e58503646d9ff8eff3a2ed3b24dbda"
 with open(os.path.join(_HERE, "english.txt"), "rb") as _f:
@@ -236,7 +237,7 @@ def mnemonic_decode(sentence):
 def pbkdf2_sha512(password, salt, rounds=2048, dklen=64):
     """Own PBKDF2 loop (RFC 8018) over hmac; single block suffices for dklen <= 64."""
     assert dklen <= 64
-    base = _hmac.new(password, digestmod=hashlib.sha512)
+    base = _HMAC_NEW(password, digestmod=hashlib.sha512)
     m = base.copy()
     m.update(salt + b"\x00\x00\x00\x01")
     u = m.digest()
